@@ -34,6 +34,8 @@ class C10(F.Spec):
             yield self.positioning(rng, i)
         for i in range(n // 4):
             yield self.positioning(rng, 10000 + i, edge=True)
+        for i in range(n // 4):
+            yield self.positioning(rng, 20000 + i, zero=True)
         for i in range(n // 3):
             yield self.uncalibrated(rng, i)
         for i in range(n // 3):
@@ -57,7 +59,7 @@ class C10(F.Spec):
                 ops.append("pingreply")     # the server answers every ping (keep-alive is C05's subject)
                 acc = 0
 
-    def positioning(self, rng, i, edge=False):
+    def positioning(self, rng, i, edge=False, zero=False):
         tt = 2 if edge else rng.choice([0, 0, 0, 1, 2, 3])
         opening = 100 * rng.randint(10, 600)
         closing = rng.choice([opening, 100 * rng.randint(10, 600)])
@@ -81,6 +83,21 @@ class C10(F.Spec):
                 g, gt = rng.randint(88, 100), rng.randint(0, 60)
             else:
                 g, gt = rng.randint(0, 12), rng.randint(40, 100)
+        if zero:
+            # a configured end-stop margin of 0 %: slow shutters sent to an end stop (nothing is added to the travel), and blinds
+            # that stand at an end stop and are asked for another tilt (the output has to be energised all the same)
+            margin = 0
+            tt = rng.choice([0, 0, 1, 2, 3])
+            if tt == 0:
+                opening = closing = rng.choice([50000, 60000])
+                tms, t0, gt = 0, 0, -1
+                p0, g = rng.choice([30, 50, 70]), rng.choice([0, 100])
+            else:
+                opening = closing = 100 * rng.randint(50, 200)
+                tms = 100 * rng.randint(10, 20)
+                p0 = rng.choice([0, 100])
+                t0 = rng.choice([0, 50, 100]) if not (tt == 3 and p0 < 100) else 0
+                g, gt = p0, rng.choice([0, 100, 50])
         dur = ((opening // 100) << 16) | (closing // 100)
         ops = ["boot %d" % rng.choice([12345, 4294967295 - 20000000, rng.getrandbits(32) | 1]), "board rs1 0",
                "motor 3 %d %d %d" % (startup, opening, closing), "init", "calllog 1",
@@ -90,7 +107,7 @@ class C10(F.Spec):
         ops.append("msg 110 " + set_value(7, 0, dur, val).hex())
         budget = int(max(opening, closing) * 2.3) + 4000
         cmds = [(g, gt)]
-        if rng.random() < 0.35:
+        if rng.random() < 0.35 and not zero:
             # a second command while the first is being executed
             self.run_until_idle(ops, rng.randint(100, max(200, budget // 3)))
             k = rng.choice(["retarget", "retarget", "stop", "updown"])
@@ -538,7 +555,9 @@ class C10(F.Spec):
                     if me["tt"] and gt is not None and gt >= 0 and not (me["tt"] == 3 and g != 100):
                         tilt = hist["RsTilt"][-1][1] if hist["RsTilt"] else 100 + 100 * me["t0"]
                         rt = (tilt - 100 + 50) // 100
-                        if abs(rt - gt) > 1 + 100.0 * 10 / me["tms"]:
+                        # (the same two accounting periods as for the position: the callback that sees the tilt reached and the
+                        # one that accounts the time up to the switch-off)
+                        if abs(rt - gt) > 1 + 100.0 * 10 * periods / me["tms"]:
                             fs.append(F.Finding("tilt-target-missed", "mode %d: target tilt %d (position %d), stored tilt %.2f %%" % (me["tt"], gt, g, (tilt - 100) / 100.0)))
                     # time bound: travel needed + end-stop margin + start delays + tilt corrections
                     if ivals and cmd_t:
@@ -552,9 +571,10 @@ class C10(F.Spec):
                             Fdir = (me["opening"] if goal < start else me["closing"]) * 1000.0
                             travel = abs(goal - start) / 10000.0 * Fdir
                             meff = 5 if me["margin"] < 0 else me["margin"]
-                            if me["margin"] >= 0 and me["margin"] < 50:
+                            if me["margin"] >= 0 and me["margin"] < 50 and not (me.get("sensor", 3) == 3 and me.get("aligned", True)):
                                 meff_hi = 50        # while the sensor reports movement the margin is at least 50 %
                             else:
+                                # (a motor that stops at its end stop and a sensor that shows it: the configured margin counts)
                                 meff_hi = meff
                             mt = Fdir * meff_hi / 100.0 if g in (0, 100) else 0
                             bound = travel + mt + 1300000 + 0.02 * Fdir + me["startup"] * 1000
